@@ -27,7 +27,9 @@ RULE = ("body cells: every Unicode scalar value except C0/C1 controls and \\ { }
         "source as table and paragraph, page_by heading, subline_by heading, page header / footer) gets all of "
         "Latin-1, the boundary points and a stratified sample. one case = one written file; non-trivial = contains "
         "a character above U+007F; distinct by hash of the code-point block")
-ASSUMPTIONS = ["bytes >= 0x80 outside escapes decode one at a time in cp1252 (the \\ansi default), as Word/LibreOffice do",
+ASSUMPTIONS = ["bytes >= 0x80 and \\'hh outside \\u escapes decode one at a time in the code page of the current font's "
+               "\\fcharset (1 = document default cp1252, 161 = cp1253, 2 = Symbol), as Word/LibreOffice do; all ten "
+               "fonts are rotated over the cells and positions",
                "C0/C1 controls and the raw metacharacters are outside the quantifier"]
 DECIDING = ["files_parsed", "codepoints_checked_in_body", "positions_checked", "u_escapes_checked"]
 FLOOR = {"quick": 60, "thorough": 600}
@@ -98,14 +100,16 @@ def write_and_parse(spec, td):
     return raw, R.parse(raw)
 
 
-def body_doc(cells, convert):
+def body_doc(cells, convert, font_shift=0):
     """cells: list of strings laid out row-major in COLS columns"""
     rows = (len(cells) + COLS - 1) // COLS
     padded = cells + [""] * (rows * COLS - len(cells))
     cols = [{"name": f"N{j}", "dtype": "str", "values": [padded[r * COLS + j] for r in range(rows)]}
             for j in range(COLS)]
-    return {"kind": "table", "df": {"cols": cols}, "body": {"text_convert": convert}, "colheader": "none",
-            "title": None, "page": {"nrow": 1000000}}, padded, rows
+    # every font (the font table declares different charsets: 1, 161 Greek, 0, 2 Symbol) rotated over the columns
+    fonts = [(font_shift + j) % 10 + 1 for j in range(COLS)]
+    return {"kind": "table", "df": {"cols": cols}, "body": {"text_convert": convert, "text_font": fonts},
+            "colheader": "none", "title": None, "page": {"nrow": 1000000}}, padded, rows
 
 
 def check_body(ctx, cps, convert, packed):
@@ -116,7 +120,7 @@ def check_body(ctx, cps, convert, packed):
         cells = [chr(c) for c in cps]
     for start in range(0, len(cells), PER_DOC):
         chunk = cells[start:start + PER_DOC]
-        spec, padded, rows = body_doc(chunk, convert)
+        spec, padded, rows = body_doc(chunk, convert, font_shift=start // PER_DOC + (3 if packed else 0))
         case = {"kind": "body", "convert": convert, "packed": packed,
                 "first_cp": hex(ord(chunk[0][0])) if chunk and chunk[0] else None, "cells": len(chunk)}
         td = tempfile.mkdtemp(prefix="rtfmon-c10-")
@@ -203,6 +207,13 @@ def position_doc(rng, texts, convert_override):
             "page_header": {"text": payload("PH0")}, "page_footer": {"text": payload("PF0")},
             "footnote": {"text": payload("FN0"), "as_table": rng.random() < 0.5},
             "source": {"text": payload("SR0"), "as_table": rng.random() < 0.5}}
+    for comp in ("title", "subline", "page_header", "page_footer", "footnote", "source"):
+        if rng.random() < 0.7:
+            spec[comp]["text_font"] = rng.randint(1, 10)
+    if rng.random() < 0.7:
+        spec["body"]["text_font"] = rng.randint(1, 10)
+    if rng.random() < 0.7:
+        spec["colheader"][0]["text_font"] = rng.randint(1, 10)
     for comp, conv in convert_override.items():
         if comp == "body":
             spec["body"]["text_convert"] = conv
